@@ -4,7 +4,7 @@ Model: coq/C13/C13_Model.v (element laws, shared with C12/C13) + coq/C38/C38_Mod
 Theorems: coq/Props/Properties_C38.v - (A) each element's force and PE equal the formula of its documentation
 (spring f = k(x-x0) along d, damper c v d, constant force, Gravity m g d at the mass centre with exclusions and
 PE = m g (p.(-d) - hz), -k(q-q0), MobilityLinearStop's piecewise min/max law, bushing -(Kq + C qdot), 1/2 q'Kq);
-UniformGravity's "zero height" refuted with a witness;  (B) along any history of parameter/state/enable changes every
+UniformGravity's PE formula and "PE = 0 at the zero height" (regression witness of fix 6270af84);  (B) along any history of parameter/state/enable changes every
 realization reports the value for the current values (given that parameter writes invalidate the cached force).
 Tie: (1) correspondence of the laws: extracted model vs compiled elements on the same poses/velocities/parameters;
 (2) random histories of set-parameter / set-state / enable-disable / realize on the real elements, observed through the
@@ -199,14 +199,29 @@ def witness(ctx, exe):
         ctx.broken.append(('witness', 'witness replay did not run: ' + (out + err)[-200:])); return
     v = parse_floats(line[0].split('|')[1])
     ctx.extra['witness_replay'] = {'UniformGravity_PE_at_zero_height': v[0], 'Gravity_PE_at_zero_height': v[1]}
-    if v[0] != 0.0:
-        ctx.report('uniformgravity-zero-height', 'UniformGravity with g=(0,-2,0), zeroHeight=3: a unit mass whose mass centre is at height 3 reports PE %g, documented 0 (Gravity reports %g)' % (v[0], v[1]),
-                   {'witness': 'Coq theorem C38_uniformgravity_zero_height_refuted', 'replay_cmd': 'echo WUG | %s' % exe, 'observed': v})
-    else:
-        ctx.broken.append(('witness:uniformgravity-zero-height', 'the refuted-theorem witness no longer reproduces (PE %g): model and theorem must follow the source' % v[0]))
-    if v[1] != 0.0:
+    # regression case (was the known finding uniformgravity-zero-height until fix 6270af84): PE must be 0 at the zero height
+    if abs(v[0]) > 1e-12:
+        ctx.report('impl:uniformgravity-zero-height', 'UniformGravity with g=(0,-2,0), zeroHeight=3: a unit mass whose mass centre is at height 3 reports PE %g, documented 0 (Gravity reports %g)' % (v[0], v[1]),
+                   {'theorem': 'C38_uniformgravity_zero_height_witness', 'replay_cmd': 'echo WUG | %s' % exe, 'observed': v})
+        ctx.broken.append(('predicate:uniformgravity-zero-height', 'PE %g at the zero height' % v[0]))
+    if abs(v[1]) > 1e-12:
         ctx.report('impl:gravity-zero-height', 'Force::Gravity reports PE %g for a mass centre at the zero height' % v[1], {'observed': v})
         ctx.broken.append(('predicate:gravity-zero-height', 'PE %g' % v[1]))
+
+def replay(ctx, path):
+    """re-run one recorded case: a law case (both sides) or a history (history state vs fresh state)"""
+    import json
+    d = json.load(open(path)); hi = d.get('harness_input', '')
+    if d.get('key', '').startswith('impl:stale') or d.get('key', '').startswith('impl:setter'):
+        ctx.build_repo(); exe = ctx.bdir('C38_hist')
+        if not ctx.cxx(os.path.join(VERIF, 'harness', 'C38_hist.cpp'), exe): print('harness does not compile'); return
+        rc, out, err = sh([exe], input=hi + '\n', timeout=600)
+        ph = parse_hist(hi.split()[0], [l for l in out.split('\n') if l.strip()][0])
+        for ri, rep in enumerate(ph[3]):
+            print('report %d: parameters %s enabled %s\n  history state: %s\n  fresh state  : %s\n  %s' % (ri, rep['params'], rep['enabled'], rep['hist'], rep['fresh'],
+                  'equal' if C13.agree(rep['hist'], rep['fresh'], 1e-12, 1e-13) else 'DIFFERENT'))
+    else:
+        C13.replay_case(ctx, path)
 
 def run(ctx):
     ctx.build_repo()
